@@ -214,6 +214,7 @@ type env struct {
 	// its own parameters: a legal use, and the outer request must be unaffected by it (contexts are per request, also pooled ones)
 	nest    func()
 	nesting bool
+	poison  types.Middleware[*H]
 }
 
 func splitList(s string) []string {
@@ -262,6 +263,14 @@ func (e *env) clobbered() bool {
 	for _, g := range e.guards {
 		if g.full[g.n] != g.sent {
 			bad = true
+		}
+		// the call has returned: the slice is the caller's again, and the caller reuses it. A callee that kept the slice
+		// itself instead of a copy (mux copies: slices.Clone / Concat / append) would run zz-poison on later routes.
+		for i := 0; i < g.n; i++ {
+			if e.poison == nil {
+				e.poison = e.mw("zz-poison")
+			}
+			g.full[i] = e.poison
 		}
 	}
 	e.guards = e.guards[:0]
